@@ -476,6 +476,40 @@ func inputChunk(tw *trace.Writer, rng *rand.Rand, names []string, n int, exh boo
 			}
 		}
 	}
+	// a clipboard reply for a large selection (several thousand base64 characters) under a few partitions
+	for _, name := range names {
+		if name != "xterm-256color" && name != "alacritty" && name != "tmux-256color" {
+			continue
+		}
+		g, err := newGen(rng, name)
+		if err != nil {
+			return err
+		}
+		if !g.clip {
+			continue
+		}
+		tw.Emit(trace.Ev{"ev": "Reset"})
+		tw.Emit(g.chunkConfig(name, nil))
+		data := make([]byte, 6600+rng.Intn(600))
+		rng.Read(data)
+		for k, term := range []string{"\x07", "\x1b\\"} {
+			b := []byte("\x1b]52;c;" + base64.StdEncoding.EncodeToString(data) + term + "k")
+			id := 1<<27 + runs + k
+			r := decode(g.ti, "UTF-8", 80, 24, [][]byte{b}, nil)
+			e := runEvent("Run", id, b, nil, r)
+			e["tokens"] = 0
+			e["nomodel"] = true // thousands of bytes: compared across partitions, not re-tokenized by the model
+			tw.Emit(e)
+			runs++
+			for _, cuts := range [][]int{{100}, {8300}, {len(b) - 2}, {4000, 8250, 8400}, {8192 + 8}} {
+				r := decode(g.ti, "UTF-8", 80, 24, split(b, cuts), nil)
+				e := runEvent("Run", id, b, cuts, r)
+				e["tokens"] = 0
+				tw.Emit(e)
+				runs++
+			}
+		}
+	}
 	// the same through a live screen: the bytes arrive on a fake tty, the escape timeout is the real 50 ms timer of
 	// the main loop, the events come out of PollEvent - predicted by the tokenizer model like every other run
 	for _, name := range names {
